@@ -15,10 +15,10 @@ use imbl::Vector;
 
 use crate::{
     campaign::CaseReport,
-    common::{catch, flag_waker, fnv, Flag, Prop, Stop, R},
+    common::{catch, flag_waker, fnv, Flag, PendingMark, Prop, Stop, R},
     val::{registry_reset, registry_snapshot, MVal, Val},
     vec_streams::{
-        apply_checked, build_pipeline, k1_trigger, mask_pass, mdiff, BoxS, CmpKind, Diff, LimitCtl, MDiff, TapState,
+        apply_checked, build_pipeline, k1_trigger, mask_pass, mdiff, BoxS, CmpKind, Diff, LazySource, LazyState, LimitCtl, MDiff, TapState,
         FILTER_MAP_OFFSET,
     },
     vec_target::{model_traverse, Act, RVOp, Target},
@@ -46,7 +46,7 @@ struct Sub {
     limits: Vec<Option<LimitCtl>>,
     next_msg: usize,
     yield_remaining: usize,
-    last_pending: Option<Arc<Flag>>,
+    last_pending: Option<PendingMark>,
     ended: bool,
     lagged: bool,
     twin_of: Option<usize>,
@@ -57,6 +57,7 @@ struct Sub {
     crossed_boundaries: bool,
     was_full: bool,
     was_not_full: bool,
+    late_mismatch: Rc<RefCell<Option<String>>>,
 }
 
 #[derive(Default, Debug)]
@@ -90,6 +91,7 @@ pub struct Feat {
     pub dropped_mid_yield: bool,
     pub dropped_buffered: bool,
     pub txns: u32,
+    pub deferred_conversion: bool,
     pub dropped_sub_in_txn: bool,
     pub ops_executed: u32,
     pub polls: u32,
@@ -154,6 +156,7 @@ struct World {
     subs: Vec<Sub>,
     /// a transaction is open (the vector is temporarily moved out of `vec`)
     in_txn: bool,
+    shared_flag: Option<Arc<Flag>>,
 }
 
 fn hash_state(v: &[MVal]) -> u64 {
@@ -846,14 +849,33 @@ impl World {
             spec.policy = Policy::Eager;
         }
         let keep_log = twin;
-        let (stream, taps, limits, mismatch) = if spec.batched {
-            let (values, stream) = VectorObserver::into_parts(vec.subscribe().batched());
-            let b = build_pipeline::<Vec<Diff>>(values, Box::pin(stream), &spec.pipeline, spec.fifo, keep_log);
-            (AnyStream::B(b.stream), b.taps, b.limits, b.into_parts_mismatch)
+        let late_mismatch: Rc<RefCell<Option<String>>> = Rc::new(RefCell::new(None));
+        let (stream, taps, limits, mismatch) = if spec.convert == 0 || twin {
+            if spec.batched {
+                let (values, stream) = VectorObserver::into_parts(vec.subscribe().batched());
+                let b = build_pipeline::<Vec<Diff>>(values, Box::pin(stream), &spec.pipeline, spec.fifo, keep_log);
+                (AnyStream::B(b.stream), b.taps, b.limits, b.into_parts_mismatch)
+            } else {
+                let (values, stream) = VectorObserver::into_parts(vec.subscribe());
+                let b = build_pipeline::<Diff>(values, Box::pin(stream), &spec.pipeline, spec.fifo, keep_log);
+                (AnyStream::U(b.stream), b.taps, b.limits, b.into_parts_mismatch)
+            }
         } else {
-            let (values, stream) = VectorObserver::into_parts(vec.subscribe());
-            let b = build_pipeline::<Diff>(values, Box::pin(stream), &spec.pipeline, spec.fifo, keep_log);
-            (AnyStream::U(b.stream), b.taps, b.limits, b.into_parts_mismatch)
+            // keep the handle: snapshot now, conversion to a stream at the first poll
+            self.ck.f.deferred_conversion = true;
+            let h = vec.subscribe();
+            let values = h.values();
+            let early: Vec<MVal> = values.iter().map(|v| v.m()).collect();
+            let kind = if spec.convert % 2 == 1 { 1 } else { 2 };
+            if spec.batched {
+                let src = LazySource::<Vec<Diff>> { state: LazyState::Handle(h, kind, early), mismatch: late_mismatch.clone() };
+                let b = build_pipeline::<Vec<Diff>>(values, Box::pin(src), &spec.pipeline, spec.fifo, keep_log);
+                (AnyStream::B(b.stream), b.taps, b.limits, b.into_parts_mismatch)
+            } else {
+                let src = LazySource::<Diff> { state: LazyState::Handle(h, kind, early), mismatch: late_mismatch.clone() };
+                let b = build_pipeline::<Diff>(values, Box::pin(src), &spec.pipeline, spec.fifo, keep_log);
+                (AnyStream::U(b.stream), b.taps, b.limits, b.into_parts_mismatch)
+            }
         };
         if let Some(st) = spec.pipeline.first() {
             self.ck.first_stages.push(*st);
@@ -879,6 +901,7 @@ impl World {
             crossed_boundaries: false,
             was_full: false,
             was_not_full: false,
+            late_mismatch: late_mismatch.clone(),
         });
         if let Some(m) = mismatch {
             return self.ck.fail(&[C12], m);
@@ -911,6 +934,7 @@ impl World {
                 crossed_boundaries: false,
                 was_full: false,
                 was_not_full: false,
+                late_mismatch: Rc::new(RefCell::new(None)),
             });
         }
         Ok(())
@@ -930,6 +954,9 @@ impl World {
 
     fn check_taps(&mut self, i: usize) -> R {
         let sub = &self.subs[i];
+        if let Some(m) = sub.late_mismatch.borrow().clone() {
+            return self.ck.fail(&[C05], m);
+        }
         if !self.ck.strict {
             for l in sub.limits.iter().flatten() {
                 if let Some(k) = l.shared.borrow().known_hit {
@@ -1028,7 +1055,7 @@ impl World {
         }
         self.ck.f.polls += 1;
         let vec_alive = self.vec.is_some() || self.in_txn;
-        let flag = Flag::new();
+        let flag = self.shared_flag.clone().unwrap_or_else(Flag::new);
         let waker = flag_waker(&flag);
         let mut cx = Context::from_waker(&waker);
         let (res, prev, t0_ended_before) = {
@@ -1085,7 +1112,7 @@ impl World {
                 sub.pending_limit_events = 0;
                 sub.pending_source_events = 0;
             }
-            sub.last_pending = Some(flag.clone());
+            sub.last_pending = Some(PendingMark::new(&flag));
         }
 
 
@@ -1354,8 +1381,14 @@ fn classes(f: &Feat, case: &VecCase) -> Vec<&'static str> {
     if !case.probe {
         c.push("no_probe_subscriber");
     }
+    if f.deferred_conversion {
+        c.push("subscriber_handle_converted_to_stream_later");
+    }
     if case.final_drop {
         c.push("vector_dropped_at_end");
+    }
+    if case.shared_waker {
+        c.push("one_waker_shared_by_all_polls");
     }
     c
 }
@@ -1401,6 +1434,7 @@ fn run_inner(case: &VecCase, prop: Prop) -> R<(CaseReport, Feat)> {
         probe: None,
         subs: vec![],
         in_txn: false,
+        shared_flag: if case.shared_waker { Some(Flag::new()) } else { None },
     };
     let init: Vec<MVal> = case.initial.iter().map(|k| w.new_val(*k)).collect();
     if !init.is_empty() {
